@@ -55,14 +55,58 @@ impl VisitMut for DropTrailingPlus {
     }
     fn visit_type_mut(&mut self, i: &mut Type) {
         visit_type_mut(self, i);
-        if let Type::Group(g) = i {
-            let elem = (*g.elem).clone();
-            *i = match &elem {
-                Type::TraitObject(t) if t.bounds.len() > 1 => parse_quote!((#elem)),
-                Type::ImplTrait(t) if t.bounds.len() > 1 => parse_quote!((#elem)),
-                _ => elem,
-            };
-        }
+        resolve_type_group(i);
+    }
+    fn visit_expr_mut(&mut self, i: &mut syn::Expr) {
+        syn::visit_mut::visit_expr_mut(self, i);
+        resolve_expr_group(i);
+    }
+}
+
+/// Replaces the invisible groups around `$t:ty` and `$e:expr` fragments of a `macro_rules!` macro by what they stand for,
+/// in parentheses where they are needed: rustc ignores such a group in the output of a procedural macro, so `$e * 2`
+/// with `$e = 1 + 1` would become `1 + 1 * 2`, and `&'a $t` with `$t = dyn A + B` would become `&'a dyn A + B`.
+pub struct ResolveGroups;
+impl VisitMut for ResolveGroups {
+    fn visit_type_mut(&mut self, i: &mut Type) {
+        visit_type_mut(self, i);
+        resolve_type_group(i);
+    }
+    fn visit_expr_mut(&mut self, i: &mut syn::Expr) {
+        syn::visit_mut::visit_expr_mut(self, i);
+        resolve_expr_group(i);
+    }
+}
+fn resolve_type_group(i: &mut Type) {
+    if let Type::Group(g) = i {
+        let elem = (*g.elem).clone();
+        *i = match &elem {
+            Type::TraitObject(t) if t.bounds.len() > 1 => parse_quote!((#elem)),
+            Type::ImplTrait(t) if t.bounds.len() > 1 => parse_quote!((#elem)),
+            _ => elem,
+        };
+    }
+}
+fn resolve_expr_group(i: &mut syn::Expr) {
+    use syn::Expr;
+    if let Expr::Group(g) = i {
+        let e = (*g.expr).clone();
+        // An operand that is a single token tree or a postfix chain needs no parentheses.
+        let is_atom = matches!(
+            e,
+            Expr::Lit(_)
+                | Expr::Path(_)
+                | Expr::Paren(_)
+                | Expr::Tuple(_)
+                | Expr::Array(_)
+                | Expr::Repeat(_)
+                | Expr::Call(_)
+                | Expr::MethodCall(_)
+                | Expr::Field(_)
+                | Expr::Index(_)
+                | Expr::Macro(_)
+        );
+        *i = if is_atom { e } else { parse_quote!((#e)) };
     }
 }
 
